@@ -103,9 +103,10 @@ package internal
 // for header text t they are dirsHas(t) / dirsVal(t) (the meaning of the text).
 //@ spec func dirsHas(t string) Arr[string, bool]
 //@ spec func dirsVal(t string) Arr[string, string]
-//@ spec func ccText(h http.Header) string = hget(h, "Cache-Control")
-//@ spec func ccValidA(hs Arr[string, bool], vs Arr[string, string], k string) bool = hs[k] && isDigits(vs[k])
-//@ spec func ccDurA(vs Arr[string, string], k string) time.Duration = deltaNanos(vs[k])
+//@ spec func ccText(h http.Header) string = joinAll(h, "Cache-Control")
+// a delta-seconds argument may be a token or a quoted-string (RFC 9111 §5.2): the unquoted text counts
+//@ spec func ccValidA(hs Arr[string, bool], vs Arr[string, string], k string) bool = hs[k] && isDigits(unquote(vs[k]))
+//@ spec func ccDurA(vs Arr[string, string], k string) time.Duration = deltaNanos(unquote(vs[k]))
 //@ spec func ccValid(d map[string]string, k string) bool = ccValidA(hasArr(d), valArr(d), k)
 //@ spec func ccDur(d map[string]string, k string) time.Duration = ccDurA(valArr(d), k)
 
@@ -271,15 +272,34 @@ package internal
 //@   requires f != nil && f.clock != nil
 
 // ---- parsing of the Cache-Control field (meaning of the text: C12) ------------------
-//@ axiom dirs-empty: forall k string :: !dirsHas("")[k]
+// The empty text has no directives (its argument view is the nil map's).
+//@ axiom dirs-empty: dirsHas("") == noKeys() && dirsVal("") == nilMapVals()
+// parseDirectives DEFINES the meaning of a Cache-Control list text for this cache (tokenisation: trusted),
+// except that its keys are proved lower-case at the point where they are produced (directivesSeq2).
+//@ func parseDirectives
+//@   trusted
+//@   pure
+//@   ensures result != nil && hasArr(result) == dirsHas(s) && valArr(result) == dirsVal(s)
 //@ func ParseCCRequestDirectives
-//@   trusted
+//@   property C12 C01 C02 C06 C13 C18
 //@   pure
-//@   ensures hasArr(result) == dirsHas(ccText(header)) && valArr(result) == dirsVal(ccText(header))
+//@   ensures hasArr(result) == dirsHas(ccText(header)) && valArr(result) == dirsVal(ccText(header))      # name: all-field-lines-parsed
 //@ func ParseCCResponseDirectives
-//@   trusted
+//@   property C12 C01 C02 C06 C13
 //@   pure
-//@   ensures hasArr(result) == dirsHas(ccText(header)) && valArr(result) == dirsVal(ccText(header))
+//@   ensures hasArr(result) == dirsHas(ccText(header)) && valArr(result) == dirsVal(ccText(header))      # name: all-field-lines-parsed
+
+// the loop body of directivesSeq2: every directive name handed on is lower-case and non-empty
+//@ fnparam directivesSeq2$1$1.yield(key, value)
+//@   requires key == lower(key) && len(key) > 0                              # name: directive-name-lower-cased
+//@   pure
+//@ func directivesSeq2$1$1
+//@   property C12
+//@   requires jump$1 != nil && yield != nil && *yield != nil
+//@   assigns cell(jump$1)
+//@ extern strings.Cut(s, sep)
+//@   pure
+
 
 // unquote = ParseQuotedString (RFC 9110 §5.6.4); a no-cache directive is qualified iff its unquoted argument is non-empty
 //@ spec func unquote(s string) string
